@@ -219,3 +219,27 @@ def as_array(v):
     if callable(v):
         return None
     return np.asarray(v, dtype=float)
+
+
+def make_curved(kind="curve", metric=None):
+    """Strongly curved constraint manifolds (reversibility checks of the retraction do fire on them)."""
+    if kind == "curve":          # q1 = sin(3 q0) in R^2
+        d = 2
+        constr = lambda q: np.array([q[1] - np.sin(3 * q[0])])  # noqa: E731
+        jac = lambda q: np.array([[-3 * np.cos(3 * q[0]), 1.0]])  # noqa: E731
+        point = lambda rng: (lambda x: np.array([x, np.sin(3 * x)]))(rng.uniform(-1.5, 1.5))  # noqa: E731
+    elif kind == "surface":      # q2 = sin(3 q0) cos(2 q1) in R^3
+        d = 3
+        constr = lambda q: np.array([q[2] - np.sin(3 * q[0]) * np.cos(2 * q[1])])  # noqa: E731
+        jac = lambda q: np.array([[-3 * np.cos(3 * q[0]) * np.cos(2 * q[1]), 2 * np.sin(3 * q[0]) * np.sin(2 * q[1]), 1.0]])  # noqa: E731
+        point = lambda rng: (lambda x, y: np.array([x, y, np.sin(3 * x) * np.cos(2 * y)]))(*rng.uniform(-1.5, 1.5, size=2))  # noqa: E731
+    else:                        # unit sphere in R^3, zero potential: geodesic flow is known in closed form
+        d = 3
+        constr = lambda q: np.array([q @ q - 1.0])  # noqa: E731
+        jac = lambda q: 2 * q[None, :]  # noqa: E731
+        point = lambda rng: (lambda v: v / np.linalg.norm(v))(rng.standard_normal(3))  # noqa: E731
+    pot = (lambda q: 0.0) if kind == "sphere" else (lambda q: 0.5 * float(q @ q))
+    gpot = (lambda q: np.zeros_like(q)) if kind == "sphere" else (lambda q: q)
+    s = S.DenseConstrainedEuclideanMetricSystem(pot, constr, metric=metric, grad_neg_log_dens=gpot, jacob_constr=jac,
+                                               mhp_constr=None, dens_wrt_hausdorff=True)
+    return s, point, d
